@@ -66,6 +66,3 @@ Definition pinned_decls_queue : list string :=
 
 Definition ok_queue : Prop :=
   of_file fst "queue.go" InvMlink.inventory = pinned_queue /\ of_file (fun s => s) "queue.go" InvMlink.decls = pinned_decls_queue.
-
-Lemma C10_mlink_inventory_mlink : InvMlink.files = pinned_files /\ ok_list /\ ok_mlink /\ ok_queue.
-Proof. unfold ok_list, ok_mlink, ok_queue; repeat split; vm_compute; reflexivity. Qed.
